@@ -297,8 +297,8 @@ func run(prop, tier, repo, verif, rulesF string, noEv, dumpKeys, verbose bool) (
 					"transactional semantics of bbolt and badger (rollback discards, read-only transactions refuse writes)",
 					"the frozen tables named in DESIGN.md (canonical value types, read-operation list, expected rank/negation/range tables)",
 				},
-				"exhaustive": true,
-				"selftest":   loadSelftest(),
+				"exhaustive":     true,
+				"selftest":       loadSelftest(),
 				"floor_failures": floorFail,
 			},
 			Assumptions: p.Assumptions,
